@@ -16,6 +16,8 @@ class KDSubset(Subset):
             return getattr(super(), item)
         if item.startswith("getall_"):
             # subsample getitem_ with the indices
+            # (only if the wrapped dataset implements it -> otherwise hasattr would be True for every getall_...)
+            getattr(self.dataset, item)
             return partial(self._call_getall, item)
         return getattr(self.dataset, item)
 
